@@ -96,7 +96,8 @@ def main(out):
         tok = si + b"." + b64u(hmac.new(k, si, hashlib.sha256).digest())
         return jwt.decode(tok, OctKey.import_key(dict(keys["oct32"])))
     flags.append(probe("rec_claims", rec_claims, is_err(InvalidPayloadError), is_err(RecursionError)))
-    flags.append(probe("use_str", lambda: ECKey.validate_dict_key({**{k: keys["ec256"][k] for k in ("kty", "crv", "x", "y")}, "use": [], "key_ops": []}),
+    # called directly: since the "use" validator refuses lists, import_key no longer reaches this with a list
+    flags.append(probe("use_str", lambda: ECKey.binding.validate_dict_key_use_operations({"use": [], "key_ops": []}),
                        is_err(ValueError), is_err(TypeError)))
     assert len(flags) == 19
     text = ("(* generated by harness/tables_c16.py from the tree under test: which guards of\n"
